@@ -66,6 +66,39 @@ class Tape(SHA256):
         return child
 
 
+class RefTape(Tape):
+    """a logging proxy around a REAL cryptorandom.SHA256: every primitive request (random(size), randint, _randbelow) is
+    answered by the reference generator itself.  It is a subclass, so code that special-cases the exact class SHA256 takes its
+    generic path; results obtained with a plain SHA256(seed) instance must equal those obtained with RefTape(SHA256(seed))."""
+    def __init__(self, ref):
+        super().__init__(None, None)
+        self.ref = ref
+
+    def _randbelow(self, n):
+        # random.Random.shuffle / choice / randrange ask the INSTANCE's _randbelow (rejection sampling on getrandbits)
+        a = self.ref._randbelow(int(n)); self.log.append((int(n), int(a))); self.kinds.append("below"); return a
+
+    def randbelow_from_randbits(self, n):
+        a = self.ref.randbelow_from_randbits(int(n)); self.log.append((int(n), int(a))); self.kinds.append("below"); return a
+
+    def random(self, size=None):
+        out = self.ref.random(size)
+        self.log.append((0, -1)); self.kinds.append("unit-block")
+        return out
+
+    def randint(self, a, b, size=None):
+        out = self.ref.randint(a, b, size)
+        self.log.append((int(b - a), -1)); self.kinds.append("below-block")
+        return out
+
+    def getrandbits(self, k):
+        return self.ref.getrandbits(k)
+
+    def __deepcopy__(self, memo):
+        import copy
+        return RefTape(copy.deepcopy(self.ref, memo))
+
+
 def lazy(rng, mode="random"):
     if mode == "zero":
         return lambda m: 0
